@@ -28,6 +28,7 @@ import (
 	"github.com/oasisprotocol/oasis-core/go/common/entity"
 	"github.com/oasisprotocol/oasis-core/go/common/identity"
 	"github.com/oasisprotocol/oasis-core/go/common/node"
+	"github.com/oasisprotocol/oasis-core/go/common/persistent"
 	"github.com/oasisprotocol/oasis-core/go/common/quantity"
 	consensus "github.com/oasisprotocol/oasis-core/go/consensus/api"
 	"github.com/oasisprotocol/oasis-core/go/consensus/api/transaction"
@@ -51,6 +52,8 @@ import (
 	"github.com/oasisprotocol/oasis-core/go/roothash/api/commitment"
 	scheduler "github.com/oasisprotocol/oasis-core/go/scheduler/api"
 	staking "github.com/oasisprotocol/oasis-core/go/staking/api"
+	upgradeMgr "github.com/oasisprotocol/oasis-core/go/upgrade"
+	upgradeAPI "github.com/oasisprotocol/oasis-core/go/upgrade/api"
 	vault "github.com/oasisprotocol/oasis-core/go/vault/api"
 
 	"github.com/oasisprotocol/oasis-core/go/common"
@@ -59,7 +62,7 @@ import (
 const (
 	numValidators = 4
 	numAccounts   = 6
-	epochInterval = 5
+	epochInterval = 3
 )
 
 // validator is one validator node with its entity.
@@ -74,21 +77,22 @@ type validator struct {
 
 // world is everything the replicas of one run share: keys and the genesis document.
 type world struct {
-	vals       []*validator
-	accts      []signature.Signer // staking accounts that submit transactions
-	signers    []signature.Signer // accts, then the node keys of the validators (each node's OWN transaction signer)
-	oracleID   *identity.Identity // identity of the oracle node: nobody's validator, signs no transactions
-	minGas     uint64             // consensus parameter MinGasPrice
-	doc        *genesis.Document
-	docJSON    []byte
-	chainCtx   string
-	genesisT   time.Time
-	addrIndex  map[string]int // hex CometBFT address -> validator index
-	backend    string
-	interval   int64
-	bypass     bool
-	tie        bool // durable stake tie between validator entities 1 and 2 at the election cut-off
-	fixedTimeS int64
+	vals          []*validator
+	accts         []signature.Signer // staking accounts that submit transactions
+	signers       []signature.Signer // accts, then the node keys of the validators (each node's OWN transaction signer)
+	oracleID      *identity.Identity // identity of the oracle node: nobody's validator, signs no transactions
+	minGas        uint64             // consensus parameter MinGasPrice
+	doc           *genesis.Document
+	docJSON       []byte
+	chainCtx      string
+	genesisT      time.Time
+	addrIndex     map[string]int // hex CometBFT address -> validator index
+	backend       string
+	interval      int64
+	bypass        bool
+	genesisHeight int64 // height of the first block (a dump-restore genesis starts above 1)
+	tie           bool  // durable stake tie between validator entities 1 and 2 at the election cut-off
+	fixedTimeS    int64
 }
 
 type nopNotifier struct{}
@@ -97,8 +101,8 @@ func (nopNotifier) DeliverExecutorCommitment(common.Namespace, *commitment.Execu
 
 func testSigner(name string) signature.Signer { return memorySigner.NewTestSigner(name) }
 
-func newWorld(backend string, interval int64, tie bool) (*world, error) {
-	w := &world{addrIndex: map[string]int{}, backend: backend, interval: interval, fixedTimeS: 1700000000, tie: tie}
+func newWorld(backend string, interval int64, tie bool, genesisHeight int64) (*world, error) {
+	w := &world{addrIndex: map[string]int{}, backend: backend, interval: interval, fixedTimeS: 1700000000, tie: tie, genesisHeight: genesisHeight}
 	w.genesisT = time.Unix(w.fixedTimeS, 0).UTC()
 	for i := 1; i <= numValidators; i++ {
 		v := &validator{idx: i}
@@ -129,6 +133,9 @@ func newWorld(backend string, interval int64, tie bool) (*world, error) {
 	for _, v := range w.vals {
 		w.signers = append(w.signers, v.id.NodeSigner)
 	}
+	for _, v := range w.vals {
+		w.signers = append(w.signers, v.entSigner) // entities submit and vote on governance proposals
+	}
 	w.oracleID = &identity.Identity{
 		NodeSigner:      testSigner("verif c01 oracle node"),
 		P2PSigner:       testSigner("verif c01 oracle p2p"),
@@ -155,11 +162,24 @@ func newWorld(backend string, interval int64, tie bool) (*world, error) {
 
 func q(n uint64) quantity.Quantity { return *quantity.NewFromUint64(n) }
 
-func (w *world) tieSuffix() string {
-	if w.tie {
-		return " tie"
+// baseEpoch: the insecure beacon schedules epoch e at height e*interval, so a genesis at height H
+// starts in epoch H/interval.
+func (w *world) baseEpoch() beacon.EpochTime {
+	if e := w.genesisHeight / w.interval; e > 1 {
+		return beacon.EpochTime(e)
 	}
-	return ""
+	return 1
+}
+
+func (w *world) variantSuffix() string {
+	s := ""
+	if w.tie {
+		s += " tie"
+	}
+	if w.doc.Height > 1 {
+		s += fmt.Sprintf(" genesis-height=%d", w.doc.Height)
+	}
+	return s
 }
 
 // tieZero: rewards that would break the engineered stake tie are switched off in tie mode.
@@ -215,11 +235,11 @@ func (w *world) makeGenesis() (*genesis.Document, error) {
 	total += commonPool
 
 	doc := &genesis.Document{
-		Height:  1,
+		Height:  w.genesisHeight,
 		ChainID: "verif-c01",
 		Time:    w.genesisT,
 		Beacon: beacon.Genesis{
-			Base: 1,
+			Base: w.baseEpoch(),
 			Parameters: beacon.ConsensusParameters{
 				Backend:            beacon.BackendInsecure,
 				InsecureParameters: &beacon.InsecureParameters{Interval: w.interval},
@@ -249,10 +269,10 @@ func (w *world) makeGenesis() (*genesis.Document, error) {
 		},
 		Governance: governance.Genesis{
 			Parameters: governance.ConsensusParameters{
-				StakeThreshold:                 90,
+				StakeThreshold:                 67,
 				UpgradeCancelMinEpochDiff:      20,
 				UpgradeMinEpochDiff:            20,
-				VotingPeriod:                   10,
+				VotingPeriod:                   1,
 				MinProposalDeposit:             q(100),
 				EnableChangeParametersProposal: true,
 			},
@@ -334,7 +354,7 @@ func (w *world) makeGenesis() (*genesis.Document, error) {
 			Versioned:  cbor.NewVersioned(node.LatestNodeDescriptorVersion),
 			ID:         v.id.NodeSigner.Public(),
 			EntityID:   v.ent.ID,
-			Expiration: 900,
+			Expiration: w.baseEpoch() + 900,
 			TLS:        node.TLSInfo{PubKey: v.id.TLSSigner.Public()},
 			P2P:        node.P2PInfo{ID: v.id.P2PSigner.Public(), Addresses: []node.Address{p2pAddr}},
 			Consensus: node.ConsensusInfo{
@@ -356,14 +376,16 @@ func (w *world) makeGenesis() (*genesis.Document, error) {
 
 // replica is one node: a real multiplexer over its own on-disk state.
 type replica struct {
-	w      *world
-	name   string
-	self   int // validator index whose identity this node runs with
-	dir    string
-	srv    *abci.ApplicationServer
-	mux    types.Application
-	cancel context.CancelFunc
-	prune  abci.PruneConfig
+	w        *world
+	name     string
+	self     int // validator index whose identity this node runs with
+	dir      string
+	srv      *abci.ApplicationServer
+	mux      types.Application
+	cancel   context.CancelFunc
+	prune    abci.PruneConfig
+	store    *persistent.CommonStore
+	upgrader upgradeAPI.Backend
 	// localMinGas is the node-local minimum gas price (configuration, CheckTx only)
 	localMinGas uint64
 }
@@ -399,8 +421,22 @@ func (r *replica) open() error {
 		InitialHeight:       r.w.doc.Height,
 		ChainContext:        r.w.chainCtx,
 	}
-	srv, err := abci.NewApplicationServer(ctx, nil, cfg)
+	// a real node-local upgrade manager over this node's own persistent store
+	store, err := persistent.NewCommonStore(r.dir)
 	if err != nil {
+		cancel()
+		return err
+	}
+	upgrader, err := upgradeMgr.New(store, r.dir, false)
+	if err != nil {
+		store.Close()
+		cancel()
+		return err
+	}
+	r.store, r.upgrader = store, upgrader
+	srv, err := abci.NewApplicationServer(ctx, upgrader, cfg)
+	if err != nil {
+		store.Close()
 		cancel()
 		return err
 	}
@@ -447,6 +483,12 @@ func (r *replica) close() {
 		r.cancel()
 		r.srv.Cleanup()
 		r.srv = nil
+		if r.upgrader != nil {
+			r.upgrader.Close()
+		}
+		if r.store != nil {
+			r.store.Close()
+		}
 	}
 }
 
